@@ -172,6 +172,18 @@ impl<'a> VisitMut for TyRw<'a> {
                 }
             }
         }
+        // whole-path renames (`tokio_postgres::Config` → `PgConfig`)
+        if let Type::Path(tp) = t {
+            if tp.qself.is_none() {
+                let full: Vec<String> = tp.path.segments.iter().map(|s| s.ident.to_string()).collect();
+                let full = full.join("::");
+                if let Some((_, to)) = self.u.pathrename.iter().find(|(a, _)| *a == full) {
+                    let id = Ident::new(to, proc_macro2::Span::call_site());
+                    *t = parse_quote!(#id);
+                    return;
+                }
+            }
+        }
         // module-qualified type paths (`hooks::Hooks`, `std::time::Duration`): keep the type name
         if let Type::Path(tp) = t {
             if tp.qself.is_none() && tp.path.segments.len() > 1 {
